@@ -32,7 +32,7 @@ import types
 
 import z3
 
-from .sym import (Sym, SInt, SBool, SReal, SBuf, SOpaque, SIPStr, SDecStr, Blob, PathCtx, Infeasible, Unsupported, PathBudget,
+from .sym import (Sym, SInt, SBool, SReal, SBuf, SOpaque, SIPStr, SDecStr, SOption, Blob, PathCtx, Infeasible, Unsupported, PathBudget,
                   explore, mk_bool, mk_int, bool_term, int_term, Obligation)
 from .interp import Interp, Config, Frame, PyRaise, has_sym, SOURCES
 from . import bufops
@@ -198,6 +198,40 @@ def count_value(c):
         return c.value
     import re
     return int(re.match(r'count\((-?\d+)\)', repr(c)).group(1))
+
+class Maybe(Shape):
+    """None or a value of `shape`, decided lazily (no fork when the input is
+    built); `flag` names another Maybe whose none-ness this one mirrors or negates"""
+    def __init__(self, shape, same_as=None, opposite_of=None):
+        self.shape = shape if isinstance(shape, Shape) else Const(shape)
+        self.same_as, self.opposite_of = same_as, opposite_of
+    def build(self, b, name):
+        if b.mode == 'sym':
+            if self.same_as is not None:
+                isn = b.built['maybe!' + self._abs(name, self.same_as)]
+            elif self.opposite_of is not None:
+                o = b.built['maybe!' + self._abs(name, self.opposite_of)]
+                isn = mk_bool(z3.Not(o.t)) if isinstance(o, SBool) else (not o)
+            else:
+                isn = b.ctx.fresh_bool(name + '#none', is_input=True)
+            b.built['maybe!' + name] = isn
+            return SOption(isn, self.shape.build(b, name))
+        if self.same_as is not None:
+            isn = b.built['maybe!' + self._abs(name, self.same_as)]
+        elif self.opposite_of is not None:
+            isn = not b.built['maybe!' + self._abs(name, self.opposite_of)]
+        elif (name + '#none') in b.values:
+            isn = bool(b.values[name + '#none'])
+        else:
+            isn = b.rng.random() < 0.5
+            b.values[name + '#none'] = isn
+        b.built['maybe!' + name] = isn
+        v = self.shape.build(b, name)
+        return None if isn else v
+    @staticmethod
+    def _abs(name, rel):
+        """sibling reference: replace the last path component"""
+        return name.rsplit('.', 1)[0] + '.' + rel if '.' in name else rel
 
 class Const(Shape):
     def __init__(self, v):
@@ -420,7 +454,7 @@ class Contract(object):
     def __init__(self, target, params, requires=None, raises=None, post=None, ensures=None, modifies=None,
                  havoc=None, only_raises=None, unchanged_on_raise=None, name=None, namespace=None,
                  inputs=None, ghost=None, resolver=None, max_paths=None, note=None, trusted=False,
-                 calls=None, applies_when=None, result_new=None, region=None, globals_=None):
+                 calls=None, applies_when=None, result_new=None, region=None, globals_=None, frame_on_raise=False, raise_ensures=None):
         self.target_spec = target
         self.name = name or (target if isinstance(target, str) else getattr(target, '__qualname__', str(target)))
         self.params = dict(params)
@@ -441,6 +475,8 @@ class Contract(object):
         self.result_new = result_new      # class spec: the result is a fresh instance of this class
         self.region = region              # fn(FunctionDef) -> list of statements: the contract is on that block of the function
         self.globals_ = dict(globals_ or {})   # name -> (module name, shape): module globals the function reads/writes
+        self.frame_on_raise = frame_on_raise   # on a raising path nothing reachable from the inputs may have changed
+        self.raise_ensures = [CExpr(e) for e in _listify(raise_ensures)]   # facts about the raised exception `exc`
         self._func = None
         self._sig = None
 
@@ -679,9 +715,18 @@ class Contract(object):
                 if con.only_raises is not None and isinstance(exc, con.only_raises) and not match:
                     acc = True
                 ctx.oblige("%s/raises:%s-only-when-specified" % (q, type(exc).__name__), acc,
-                           detail="escaped %r at %s" % (exc, '>'.join(I.call_stack)))
+                           detail="escaped %r %s at %s" % (exc, dict((k, v) for k, v in getattr(exc, '__dict__', {}).items() if isinstance(v, (str, int))), getattr(I, 'last_raise_stack', '')))
                 for (e, oldv) in olds_unch:
                     ctx.oblige("%s/unchanged-on-raise:%s" % (q, e.text), I.truth_term(I.eq(I.ev(e.body, fr), oldv)))
+                if con.frame_on_raise:
+                    _frame_check(I, ctx, q + '/refused', env, pre_objs, pre_state, set(), set())
+                fr.locals['exc'] = exc
+                for e in con.raise_ensures:
+                    try:
+                        okv = I.truth_term(e.eval(I, fr, e.eval_olds(I, fr)))
+                    except PyRaise as pr2:
+                        okv = False
+                    ctx.oblige("%s/on-raise:%s" % (q, e.text), okv)
                 label = 'raise ' + type(exc).__name__
             return label
         return run
@@ -764,7 +809,7 @@ class Contract(object):
         rconds = [(E, bool(c.native(glob, env, c.native_olds(glob, env))), c.text) for (E, c) in self.raises]
         inplace_ids = {p.key: p.expr.native(glob, env, []) for p, e in self.post if p.inplace}
         pre_objs = _collect_objects(env)
-        pre_state = {k: copy.deepcopy(dict(o.__dict__)) for k, o in pre_objs.items()}
+        pre_state = {k: dict((a, _shallow(v)) for a, v in o.__dict__.items()) for k, o in pre_objs.items()}
         args, kwargs = self.call_args(env)
         f = self.func
         ext = _native_externals(b.values)
@@ -827,7 +872,7 @@ class Contract(object):
                     path = name + '.' + k
                     if path in allowed or (id(o), k) in allowed_ids:
                         continue
-                    if k not in after or k not in before or not _native_eq(before[k], after[k]):
+                    if k not in after or k not in before or not _shallow_same(before[k], after[k]):
                         failures.append("frame: %s changed (%r -> %r)" % (path, _short(before.get(k)), _short(after.get(k))))
             outcome = 'return'
         else:
@@ -838,6 +883,19 @@ class Contract(object):
             for (e, oldv) in olds_unch:
                 if not _native_eq(e.native(glob, env, []), oldv):
                     failures.append("%s changed although the call raised" % e.text)
+            if self.frame_on_raise:
+                for name, o in pre_objs.items():
+                    before = pre_state[name]
+                    after = o.__dict__
+                    for k in set(before) | set(after):
+                        if k not in after or k not in before or not _shallow_same(before[k], after[k]):
+                            failures.append("frame: %s.%s changed although the call was refused" % (name, k))
+            for e in self.raise_ensures:
+                try:
+                    if not e.native(glob, dict(env, exc=exc), []):
+                        failures.append("on raise: %s is false (exception %r)" % (e.text, exc))
+                except Exception as ex2:
+                    failures.append("on raise: %s raised %r" % (e.text, ex2))
             outcome = 'raise ' + type(exc).__name__
         return ('violated' if failures else 'holds'), failures, {'outcome': outcome, 'inputs': b.values}
 
@@ -846,7 +904,71 @@ def _short(v, n=120):
     s = repr(v)
     return s if len(s) <= n else s[:n] + '...'
 
-def _native_eq(a, b):
+def _shallow(v):
+    """native frame snapshot: containers are copied one level deep (their members stay the same objects -- every
+    reachable object is itself checked field by field), buffers by content"""
+    if isinstance(v, bytearray):
+        return bytes(v)
+    if isinstance(v, list):
+        return list(v)
+    if isinstance(v, dict):
+        return dict(v)
+    if isinstance(v, set):
+        return set(v)
+    return v
+
+def _scalar_same(x, y):
+    if x is y:
+        return True
+    if hasattr(x, '__dict__') or hasattr(y, '__dict__'):
+        return False
+    try:
+        if isinstance(x, (bytes, bytearray)) and isinstance(y, (bytes, bytearray)):
+            return bytes(x) == bytes(y)
+        return type(x) is type(y) and x == y
+    except Exception:
+        return False
+
+def _shallow_same(before, after):
+    if isinstance(before, (list, tuple)) and isinstance(after, (list, tuple)):
+        return len(before) == len(after) and all(_scalar_same(x, y) for x, y in zip(before, after))
+    if isinstance(before, dict) and isinstance(after, dict):
+        try:
+            return set(before) == set(after) and all(_scalar_same(before[k], after[k]) for k in before)
+        except TypeError:
+            return False
+    if isinstance(before, set) and isinstance(after, set):
+        return before == after
+    return _scalar_same(before, after)
+
+def _native_eq(a, b, _seen=None, _depth=0):
+    """structural equality for native replays: objects without their own __eq__
+    (compared against deep copies) are compared field by field"""
+    if a is b:
+        return True
+    if _seen is None:
+        _seen = set()
+    key = (id(a), id(b))
+    if key in _seen or _depth > 12:
+        return True
+    if isinstance(a, (list, tuple)) and isinstance(b, (list, tuple)) and type(a) is type(b):
+        _seen.add(key)
+        return len(a) == len(b) and all(_native_eq(x, y, _seen, _depth + 1) for x, y in zip(a, b))
+    if isinstance(a, dict) and isinstance(b, dict):
+        _seen.add(key)
+        try:
+            return set(a) == set(b) and all(_native_eq(a[k], b[k], _seen, _depth + 1) for k in a)
+        except TypeError:
+            return False
+    if (not isinstance(b, Exactly) and type(a) is type(b) and hasattr(a, '__dict__') and not isinstance(a, type)
+            and type(a).__eq__ is object.__eq__):
+        _seen.add(key)
+        return _native_eq(a.__dict__, b.__dict__, _seen, _depth + 1)
+    if isinstance(a, types.MethodType) and isinstance(b, types.MethodType):
+        return a.__func__ is b.__func__ and _native_eq(a.__self__, b.__self__, _seen, _depth + 1)
+    return _native_eq0(a, b)
+
+def _native_eq0(a, b):
     try:
         if isinstance(b, Exactly):
             b = b.obj
@@ -886,12 +1008,18 @@ def _collect_objects(env):
     def rec(name, v, depth):
         if isinstance(v, Sym) or v is None or isinstance(v, (int, float, str, bytes, bytearray, type, types.FunctionType, types.ModuleType)):
             return
-        if id(v) in seen or depth > 4:
+        if id(v) in seen or depth > 6:
             return
         if isinstance(v, (list, tuple)):
             seen.add(id(v))
             for i, x in enumerate(v):
                 rec("%s[%d]" % (name, i), x, depth + 1)
+            return
+        if isinstance(v, dict) and type(v).__module__ in ('builtins', 'collections'):
+            seen.add(id(v))
+            for k, x in list(v.items()):
+                if isinstance(k, (str, int)):
+                    rec("%s[%r]" % (name, k), x, depth + 1)
             return
         d = getattr(v, '__dict__', None)
         if isinstance(d, dict) and not isinstance(v, type):
@@ -1012,6 +1140,13 @@ def trace(channel):
     """in lemma bodies / contract expressions: the list of argument tuples of
     the calls made so far on a ghost-traced external channel"""
     return [a for (a, k) in _NATIVE_TRACE.get(channel, [])]
+
+def trace_kw(channel):
+    """keyword arguments of the calls made so far on a ghost-traced channel"""
+    return [k for (a, k) in _NATIVE_TRACE.get(channel, [])]
+
+def _m_trace_kw(I, channel):
+    return [k for (a, k) in I.ctx.trace.get(channel, [])]
 
 def _m_trace(I, channel):
     return [a for (a, k) in I.ctx.trace.get(channel, [])]
@@ -1224,6 +1359,7 @@ def make_config(repo_root, verif_root, unit=None, extra_models=None):
     cfg.models[id(requires)] = _m_requires
     cfg.models[id(check)] = _m_check
     cfg.models[id(trace)] = _m_trace
+    cfg.models[id(trace_kw)] = _m_trace_kw
     if extra_models:
         cfg.models.update(extra_models)
     return cfg
